@@ -12,6 +12,32 @@ PSC = "berty.tech/go-orbit-db/pubsub/pubsubcoreapi"
 OOO = "berty.tech/go-orbit-db/pubsub/oneonone"
 
 CHECKS = {
+    "C05": {
+        "groups": [{
+            "pkg": BS, "funcs": ["VerifC05Crash"],
+            "params": {"quick": {"STEPS": 3}, "thorough": {"STEPS": 4}},
+            "max_paths": {"quick": 60000, "thorough": 400000},
+            "covers": {"VerifC05Crash": ["local-write", "replicated-event", "recovered"]},
+        }],
+        "assumptions": [
+            "history of STEPS steps on one store, each a local write (symbolic payload) or a real replication of a batch written by a remote writer (Sync -> replicator -> fetcher -> Join -> cache write -> EventReplicated)",
+            "the store's block store and cache append every mutation to ONE ordered effect log; each effect is durable once its call returns (as the property assumes)",
+            "acknowledgement instants: return of AddOperation, emission of EventReplicated (observed synchronously in the emitting goroutine); crash index = a symbolic integer over [0, #effects]; recovered disk = that prefix; fresh store + real Load(-1)",
+        ],
+        "outside": ["durability of leveldb / flatfs themselves, torn writes", "identity persistence across restart (keystore on leveldb is not encodable; the harness reuses the identity)", "crashes during concurrent writers (C17 decides the write path's atomicity)"],
+    },
+    "C16": {
+        "groups": [{
+            "pkg": BS, "funcs": ["VerifC05Crash"],
+            "params": {"quick": {"STEPS": 3}, "thorough": {"STEPS": 4}},
+            "max_paths": {"quick": 60000, "thorough": 400000},
+            "covers": {"VerifC05Crash": ["local-write", "replicated-event"]},
+        }],
+        "assumptions": [
+            "clause (a) state-before-event only: every emission on the store's bus is observed synchronously in the emitting goroutine (a wrapper around the bus); on EventWrite the log and the view already hold the entry and there is exactly one write event per successful write; on EventReplicated all announced entries are in the log and the merged heads are already persisted",
+        ],
+        "outside": ["clause (b): ordering/losslessness of the real libp2p eventbus (the stub bus mirrors its blocking per-sink FIFO)", "clause (c): the legacy events.EventEmitter channel API under all interleavings of its two buffering goroutines with 17+ pending events is NOT decided (see DESIGN.md §3)"],
+    },
     "C01": {
         "groups": [{
             "pkg": KV, "funcs": ["VerifC01KV"],
